@@ -1,10 +1,248 @@
-import DryocVerif.Model.SecretBox
+import DryocVerif.Proofs.SecretBox
+/-
+C17 — a failed open releases nothing.
+
+For every classic opening function, for ALL inputs and every instantiation of the primitives
+(no hypothesis at all, not even well-formedness of `P`): if the result is `Err` the caller's
+buffer afterwards is exactly the buffer before — no plaintext, partial or complete, is written.
+(The `no_release_unless_ok_*` variants show the same for every non-`Ok` result, i.e. also when the
+Rust function panics on a too-small buffer.)
+The object API has no out-buffer; for it we show that `Ok m` is returned only when the
+authenticator check passed.
+-/
 namespace DryocVerif.Properties.C17
 open DryocVerif DryocVerif.Model.SecretBox
+open DryocVerif.Proofs.SecretBox
 
-/-- short ciphertexts are rejected with the caller's buffer untouched -/
-theorem openEasy_short (P : Prims) (m ct nonce key : Bytes) (h : ct.length < 16) :
-    openEasy P m ct nonce key = ⟨.err, m⟩ := by
-  simp [openEasy, MACBYTES, h]
+/-! ### secretbox -/
+
+theorem no_release_unless_ok_openDetachedInplace (P : Prims) (data mac n k : Bytes)
+    (h : (openDetachedInplace P data mac n k).res ≠ .ok ()) :
+    (openDetachedInplace P data mac n k).buf = data := by
+  rw [openDetachedInplace_eq] at h ⊢
+  split <;> simp_all
+
+theorem no_release_unless_ok_openDetached (P : Prims) (buf mac c n k : Bytes)
+    (h : (openDetached P buf mac c n k).res ≠ .ok ()) :
+    (openDetached P buf mac c n k).buf = buf := by
+  rw [openDetached_eq] at h ⊢
+  repeat' split
+  all_goals simp_all
+
+theorem no_release_unless_ok_openEasy (P : Prims) (buf ct n k : Bytes)
+    (h : (openEasy P buf ct n k).res ≠ .ok ()) :
+    (openEasy P buf ct n k).buf = buf := by
+  rw [openEasy_eq] at h ⊢
+  repeat' split
+  all_goals simp_all
+
+theorem no_release_unless_ok_openEasyInplace (P : Prims) (ct n k : Bytes)
+    (h : (openEasyInplace P ct n k).res ≠ .ok ()) :
+    (openEasyInplace P ct n k).buf = ct := by
+  rw [openEasyInplace_eq] at h ⊢
+  repeat' split
+  all_goals simp_all
+
+/-- `crypto_secretbox_open_easy`: on `Err` the message buffer is untouched -/
+theorem failed_open_no_release_openEasy (P : Prims) (buf ct n k : Bytes)
+    (h : (openEasy P buf ct n k).res = .err) :
+    (openEasy P buf ct n k).buf = buf :=
+  no_release_unless_ok_openEasy P buf ct n k (by rw [h]; simp)
+
+/-- `crypto_secretbox_open_detached`: on `Err` the message buffer is untouched -/
+theorem failed_open_no_release_openDetached (P : Prims) (buf mac c n k : Bytes)
+    (h : (openDetached P buf mac c n k).res = .err) :
+    (openDetached P buf mac c n k).buf = buf :=
+  no_release_unless_ok_openDetached P buf mac c n k (by rw [h]; simp)
+
+/-- `crypto_secretbox_open_easy_inplace`: on `Err` the buffer still holds the ciphertext -/
+theorem failed_open_no_release_openEasyInplace (P : Prims) (ct n k : Bytes)
+    (h : (openEasyInplace P ct n k).res = .err) :
+    (openEasyInplace P ct n k).buf = ct :=
+  no_release_unless_ok_openEasyInplace P ct n k (by rw [h]; simp)
+
+/-- `crypto_secretbox_open_detached_inplace`: on `Err` the buffer still holds the ciphertext -/
+theorem failed_open_no_release_openDetachedInplace (P : Prims) (data mac n k : Bytes)
+    (h : (openDetachedInplace P data mac n k).res = .err) :
+    (openDetachedInplace P data mac n k).buf = data :=
+  no_release_unless_ok_openDetachedInplace P data mac n k (by rw [h]; simp)
+
+/-! ### box -/
+
+theorem no_release_unless_ok_boxOpenEasy (P : Prims) (buf ct n pk sk : Bytes)
+    (h : (boxOpenEasy P buf ct n pk sk).res ≠ .ok ()) :
+    (boxOpenEasy P buf ct n pk sk).buf = buf :=
+  no_release_unless_ok_openEasy P buf ct n _ h
+
+theorem no_release_unless_ok_boxOpenDetached (P : Prims) (buf mac c n pk sk : Bytes)
+    (h : (boxOpenDetached P buf mac c n pk sk).res ≠ .ok ()) :
+    (boxOpenDetached P buf mac c n pk sk).buf = buf :=
+  no_release_unless_ok_openDetached P buf mac c n _ h
+
+theorem no_release_unless_ok_boxOpenEasyInplace (P : Prims) (ct n pk sk : Bytes)
+    (h : (boxOpenEasyInplace P ct n pk sk).res ≠ .ok ()) :
+    (boxOpenEasyInplace P ct n pk sk).buf = ct :=
+  no_release_unless_ok_openEasyInplace P ct n _ h
+
+theorem no_release_unless_ok_boxOpenDetachedInplace (P : Prims) (data mac n pk sk : Bytes)
+    (h : (boxOpenDetachedInplace P data mac n pk sk).res ≠ .ok ()) :
+    (boxOpenDetachedInplace P data mac n pk sk).buf = data :=
+  no_release_unless_ok_openDetachedInplace P data mac n _ h
+
+theorem failed_open_no_release_boxOpenEasy (P : Prims) (buf ct n pk sk : Bytes)
+    (h : (boxOpenEasy P buf ct n pk sk).res = .err) :
+    (boxOpenEasy P buf ct n pk sk).buf = buf :=
+  failed_open_no_release_openEasy P buf ct n _ h
+
+theorem failed_open_no_release_boxOpenDetached (P : Prims) (buf mac c n pk sk : Bytes)
+    (h : (boxOpenDetached P buf mac c n pk sk).res = .err) :
+    (boxOpenDetached P buf mac c n pk sk).buf = buf :=
+  failed_open_no_release_openDetached P buf mac c n _ h
+
+theorem failed_open_no_release_boxOpenEasyInplace (P : Prims) (ct n pk sk : Bytes)
+    (h : (boxOpenEasyInplace P ct n pk sk).res = .err) :
+    (boxOpenEasyInplace P ct n pk sk).buf = ct :=
+  failed_open_no_release_openEasyInplace P ct n _ h
+
+theorem failed_open_no_release_boxOpenDetachedInplace (P : Prims) (data mac n pk sk : Bytes)
+    (h : (boxOpenDetachedInplace P data mac n pk sk).res = .err) :
+    (boxOpenDetachedInplace P data mac n pk sk).buf = data :=
+  failed_open_no_release_openDetachedInplace P data mac n _ h
+
+/-! ### sealed box -/
+
+theorem no_release_unless_ok_sealOpen (P : Prims) (buf ct rpk rsk : Bytes)
+    (h : (sealOpen P buf ct rpk rsk).res ≠ .ok ()) :
+    (sealOpen P buf ct rpk rsk).buf = buf := by
+  rw [sealOpen_eq] at h ⊢
+  repeat' split
+  all_goals simp_all
+
+/-- `crypto_box_seal_open`: on `Err` the message buffer is untouched -/
+theorem failed_open_no_release_sealOpen (P : Prims) (buf ct rpk rsk : Bytes)
+    (h : (sealOpen P buf ct rpk rsk).res = .err) :
+    (sealOpen P buf ct rpk rsk).buf = buf :=
+  no_release_unless_ok_sealOpen P buf ct rpk rsk (by rw [h]; simp)
+
+/-- every opening function that does not return `Ok`, returns `⟨_, buffer before⟩` — all nine
+forms in one statement -/
+theorem failed_open_no_release_all (P : Prims) :
+    (∀ buf ct n k, (openEasy P buf ct n k).res = .err → (openEasy P buf ct n k).buf = buf) ∧
+    (∀ buf mac c n k, (openDetached P buf mac c n k).res = .err →
+        (openDetached P buf mac c n k).buf = buf) ∧
+    (∀ ct n k, (openEasyInplace P ct n k).res = .err → (openEasyInplace P ct n k).buf = ct) ∧
+    (∀ data mac n k, (openDetachedInplace P data mac n k).res = .err →
+        (openDetachedInplace P data mac n k).buf = data) ∧
+    (∀ buf ct n pk sk, (boxOpenEasy P buf ct n pk sk).res = .err →
+        (boxOpenEasy P buf ct n pk sk).buf = buf) ∧
+    (∀ buf mac c n pk sk, (boxOpenDetached P buf mac c n pk sk).res = .err →
+        (boxOpenDetached P buf mac c n pk sk).buf = buf) ∧
+    (∀ ct n pk sk, (boxOpenEasyInplace P ct n pk sk).res = .err →
+        (boxOpenEasyInplace P ct n pk sk).buf = ct) ∧
+    (∀ data mac n pk sk, (boxOpenDetachedInplace P data mac n pk sk).res = .err →
+        (boxOpenDetachedInplace P data mac n pk sk).buf = data) ∧
+    (∀ buf ct rpk rsk, (sealOpen P buf ct rpk rsk).res = .err →
+        (sealOpen P buf ct rpk rsk).buf = buf) :=
+  ⟨failed_open_no_release_openEasy P, failed_open_no_release_openDetached P,
+   failed_open_no_release_openEasyInplace P, failed_open_no_release_openDetachedInplace P,
+   failed_open_no_release_boxOpenEasy P, failed_open_no_release_boxOpenDetached P,
+   failed_open_no_release_boxOpenEasyInplace P, failed_open_no_release_boxOpenDetachedInplace P,
+   failed_open_no_release_sealOpen P⟩
+
+/-! ### object layer: a payload is returned only when the authenticator check passed -/
+
+/-- `DryocSecretBox::decrypt` returns `Ok m` only if the presented tag equals the authenticator
+recomputed over the ciphertext (and then `m` is the xor of ciphertext and key stream). -/
+theorem objDecrypt_ok_only_if_mac (P : Prims) (b : Box) (n k m : Bytes)
+    (h : objDecrypt P b n k = .ok m) :
+    b.tag = P.mac ((P.stream k n (32 + b.data.length)).take 32) b.data ∧
+    m = xorBytes b.data ((P.stream k n (32 + b.data.length)).drop 32) := by
+  rw [objDecrypt_eq] at h
+  split at h
+  · rename_i ht
+    injection h with h
+    exact ⟨ht, h.symm⟩
+  · cases h
+
+/-- … and it never panics: anything but `Ok` is `Err` (no payload) -/
+theorem objDecrypt_err_of_mac_ne (P : Prims) (b : Box) (n k : Bytes)
+    (h : b.tag ≠ P.mac ((P.stream k n (32 + b.data.length)).take 32) b.data) :
+    objDecrypt P b n k = .err := by
+  rw [objDecrypt_eq, expectedTag_def]
+  simp [h]
+
+theorem objBoxDecrypt_ok_only_if_mac (P : Prims) (b : Box) (n pk sk m : Bytes)
+    (h : objBoxDecrypt P b n pk sk = .ok m) :
+    b.tag = P.mac ((P.stream (beforenm P pk sk) n (32 + b.data.length)).take 32) b.data ∧
+    m = xorBytes b.data ((P.stream (beforenm P pk sk) n (32 + b.data.length)).drop 32) :=
+  objDecrypt_ok_only_if_mac P b n _ m h
+
+theorem objBoxDecrypt_err_of_mac_ne (P : Prims) (b : Box) (n pk sk : Bytes)
+    (h : b.tag ≠ P.mac ((P.stream (beforenm P pk sk) n (32 + b.data.length)).take 32) b.data) :
+    objBoxDecrypt P b n pk sk = .err :=
+  objDecrypt_err_of_mac_ne P b n _ h
+
+/-- `DryocBox::unseal` returns `Ok m` only for a box carrying an ephemeral key whose tag verifies
+under the key and nonce derived from that ephemeral key. -/
+theorem objUnseal_ok_only_if_mac (P : Prims) (b : Box) (rpk rsk m : Bytes)
+    (h : objUnseal P b rpk rsk = .ok m) :
+    ∃ epk, b.epk = some epk ∧
+      b.tag = P.mac ((P.stream (beforenm P epk rsk) (sealNonce P epk rpk)
+                        (32 + b.data.length)).take 32) b.data ∧
+      m = xorBytes b.data ((P.stream (beforenm P epk rsk) (sealNonce P epk rpk)
+                        (32 + b.data.length)).drop 32) := by
+  unfold objUnseal at h
+  split at h
+  · cases h
+  · rename_i epk he
+    exact ⟨epk, he, objBoxDecrypt_ok_only_if_mac P b _ epk rsk m h⟩
+
+/-! ### non-vacuity: the `Err` premise is reachable (toy instance, forged tags) -/
+
+section NonVacuity
+
+example : openEasy toyPrims [4, 4, 4] (List.replicate 19 1) toyNonce toyKey = ⟨.err, [4, 4, 4]⟩ := by
+  decide
+
+example : (openEasy toyPrims [4, 4, 4] (List.replicate 19 1) toyNonce toyKey).buf = [4, 4, 4] :=
+  failed_open_no_release_openEasy toyPrims _ _ _ _ (by decide)
+
+example : (openDetached toyPrims [4, 4, 4] (zeros 16) [1, 1, 1] toyNonce toyKey).buf = [4, 4, 4] :=
+  failed_open_no_release_openDetached toyPrims _ _ _ _ _ (by decide)
+
+example : (openEasyInplace toyPrims (List.replicate 19 1) toyNonce toyKey).buf = List.replicate 19 1 :=
+  failed_open_no_release_openEasyInplace toyPrims _ _ _ (by decide)
+
+example : (openDetachedInplace toyPrims [1, 1, 1] (zeros 16) toyNonce toyKey).buf = [1, 1, 1] :=
+  failed_open_no_release_openDetachedInplace toyPrims _ _ _ _ (by decide)
+
+example : (boxOpenEasy toyPrims [4, 4, 4] (List.replicate 19 1) toyNonce toySpk toyRsk).buf = [4, 4, 4] :=
+  failed_open_no_release_boxOpenEasy toyPrims _ _ _ _ _ (by decide)
+
+example : (boxOpenDetached toyPrims [4, 4, 4] (zeros 16) [1, 1, 1] toyNonce toySpk toyRsk).buf
+    = [4, 4, 4] :=
+  failed_open_no_release_boxOpenDetached toyPrims _ _ _ _ _ _ (by decide)
+
+example : (boxOpenEasyInplace toyPrims (List.replicate 19 1) toyNonce toySpk toyRsk).buf
+    = List.replicate 19 1 :=
+  failed_open_no_release_boxOpenEasyInplace toyPrims _ _ _ _ (by decide)
+
+example : (boxOpenDetachedInplace toyPrims [1, 1, 1] (zeros 16) toyNonce toySpk toyRsk).buf
+    = [1, 1, 1] :=
+  failed_open_no_release_boxOpenDetachedInplace toyPrims _ _ _ _ _ (by decide)
+
+example : (sealOpen toyPrims [4, 4, 4] (List.replicate 51 1) toyRpk toyRsk).buf = [4, 4, 4] :=
+  failed_open_no_release_sealOpen toyPrims _ _ _ _ (by decide)
+
+/-- the panic case (buffer too small) is covered by the `unless_ok` form -/
+example : (openEasy toyPrims [4] (List.replicate 19 1) toyNonce toyKey).buf = [4] :=
+  no_release_unless_ok_openEasy toyPrims _ _ _ _ (by decide)
+
+/-- and `Ok` is reachable for the object layer -/
+example : ∃ b, objEncrypt toyPrims toyMsg toyNonce toyKey = .ok b ∧
+    b.tag = toyPrims.mac ((toyPrims.stream toyKey toyNonce (32 + b.data.length)).take 32) b.data :=
+  ⟨_, rfl, (objDecrypt_ok_only_if_mac toyPrims _ toyNonce toyKey toyMsg (by decide)).1⟩
+
+end NonVacuity
 
 end DryocVerif.Properties.C17
